@@ -109,6 +109,8 @@ func main() {
 		runPub()
 	case "c08":
 		runC08()
+	case "c19":
+		runC19()
 	default:
 		fmt.Fprintln(os.Stderr, "unknown property", cmd)
 		os.Exit(2)
